@@ -9,7 +9,9 @@
 EXTENDS AbiCodec, Json, Randomization
 
 CONSTANTS Universe,        \* which universe the initial states range over: "d1" "d2" "d3" "q" "pool" "named"
-          SampleD2, SampleD3   \* sizes of the fixed-seed samples of deeper types in the conformance pool
+          SampleD2, SampleD3,  \* sizes of the fixed-seed samples of deeper types in the conformance pool
+          Part, NParts,        \* the conformance pool is generated in NParts slices of the depth<=1 trees
+          WithNamed            \* whether this slice carries the hand-picked nestings
 
 VARIABLES ty, lvl
 vars == <<ty, lvl>>
@@ -62,7 +64,9 @@ E1(z) == Level(J3, J3, {}, {2})
 E2(z) == Arity1(E1(z), {2}) \cup Arity2P(Both(E1(z), J3))
 ExpandD3(a) == Arity1({a}, {2}) \cup Arity2P(Both({a}, J3))
 \* quick: a thin but complete slice
-Q(z) == LFull \cup Level(K7, K7, {}, {0, 2}) \cup Arity1(D1J(z), {2}) \cup Arity2P(Both(E1(z), { L("u8"), L("bool") }))
+ExpandQ(a) ==
+    (IF a \in K7 THEN Arity1({a}, {0, 2}) \cup Arity2P({a} \X K7) ELSE {})
+        \cup (IF a \in D1J(0) THEN Arity1({a}, {2}) ELSE {})
 
 (***************************************************************************)
 (* The nestings the property text names, and other hand-picked shapes.     *)
@@ -95,16 +99,27 @@ Named == {
     TStruct(<<TOption(TVec(TEnum(<<L("u8"), L("string")>>))), TArray(TTuple(<<L("bool"), L("u16")>>), 2)>>)
 }
 
+\* a structural hash, used only to slice the pool deterministically
+KindSeq == <<"u8", "u16", "u32", "u64", "u256", "b256", "bool", "unit", "strarr", "str", "bytes", "string",
+             "tuple", "struct", "enum", "array", "option", "result", "vec">>
+KindIx(k) == CHOOSE i \in DOMAIN KindSeq : KindSeq[i] = k
+RECURSIVE THash(_)
+THash(t) == (KindIx(t.k) * 7 + t.n * 3 + Len(t.es) + 31 * SeqSum([i \in DOMAIN t.es |-> (i + 1) * THash(t.es[i])])) % 9973
+
 Seeds(z) == CASE Universe = "d1" -> LFull \cup { TStruct(<<>>) } \cup Named
               [] Universe = "d2" -> D1 \ LFull
               [] Universe = "d3" -> E2(z)
-              [] Universe = "q" -> Q(z) \cup Named
+              [] Universe = "q" -> LFull \cup D1J(z) \cup Named
               [] Universe = "named" -> Named
-              [] Universe = "pool" -> D1 \cup Named \cup RandomSubset(SampleD2, UNION { ExpandD2(a) : a \in D1 \ LFull })
-                                         \cup RandomSubset(SampleD3, UNION { ExpandD3(a) : a \in E2(z) })
+              [] Universe = "pool" ->
+                    (IF WithNamed THEN Named ELSE {})
+                    \cup { t \in D1 \ Named : THash(t) % NParts = Part }
+                    \cup (IF SampleD2 = 0 THEN {} ELSE RandomSubset(SampleD2, UNION { ExpandD2(a) : a \in D1 \ LFull }))
+                    \cup (IF SampleD3 = 0 THEN {} ELSE RandomSubset(SampleD3, UNION { ExpandD3(a) : a \in E2(z) }))
 Expand(a) == CASE Universe = "d1" -> ExpandD1(a)
                [] Universe = "d2" -> ExpandD2(a)
                [] Universe = "d3" -> ExpandD3(a)
+               [] Universe = "q" -> ExpandQ(a)
                [] OTHER -> {}
 \* the whole universe (for the statistics)
 U(z) == LET S == Seeds(z) IN S \cup UNION { Expand(a) : a \in S }
@@ -118,18 +133,18 @@ Init == ty \in Seeds(0) /\ lvl = 0
 Next == lvl = 0 /\ lvl' = 1 /\ ty' \in Expand(ty)
 Spec == Init /\ [][Next]_vars
 
-\* one invariant; on failure the names of the failing statements are printed with the type tree
+\* one invariant per property; on failure the names of the failing statements are printed with the type tree
+FactsC09 == {"wellformed", "roundtrip", "prefixfree", "truncation", "swaysem"}
+FactsC10 == {"layout", "trivialenc", "encimpl", "trivialdec", "decimpliesenc"}
 Inv == IF AllFacts(ty) THEN TRUE ELSE Print(<<"FAILED-FACTS", FailedFacts(ty), ToJson(ty)>>, FALSE)
-
-\* profiling aids
-ProfNone == TRUE
-ProfReps == Len(Reps(ty)) > 0
-ProfEnc == LET rs == Reps(ty) IN \A i \in DOMAIN rs : Len(EncT(ty, rs[i])) >= 0
-ProfRT == LET rs == Reps(ty) es == [i \in DOMAIN rs |-> EncT(ty, rs[i])] IN RoundTrip(ty, rs, es)
-ProfLayout == LET rs == Reps(ty) es == [i \in DOMAIN rs |-> EncT(ty, rs[i])] IN LayoutOK(ty, rs, es)
-ProfTE == LET rs == Reps(ty) es == [i \in DOMAIN rs |-> EncT(ty, rs[i])] IN TrivialEncSound(ty, rs, es) /\ EncImplCanonical(ty, rs, es)
-ProfTD == LET rs == Reps(ty) es == [i \in DOMAIN rs |-> EncT(ty, rs[i])] IN TrivialDecSound(ty, rs, es)
-ProfPF == LET rs == Reps(ty) es == [i \in DOMAIN rs |-> EncT(ty, rs[i])] IN PrefixFree(ty, rs, es) /\ TruncationRejected(ty, rs, es) /\ AgreesWithSwaySem(ty, rs, es)
+InvC09 == LET rs == Reps(ty) es == [i \in DOMAIN rs |-> EncT(ty, rs[i])] IN
+          IF WellFormed(ty) /\ RoundTrip(ty, rs, es) /\ PrefixFree(ty, rs, es) /\ TruncationRejected(ty, rs, es)
+             /\ AgreesWithSwaySem(ty, rs, es)
+          THEN TRUE ELSE Print(<<"FAILED-FACTS", FailedFacts(ty) \cap FactsC09, ToJson(ty)>>, FALSE)
+InvC10 == LET rs == Reps(ty) es == [i \in DOMAIN rs |-> EncT(ty, rs[i])] IN
+          IF LayoutOK(ty, rs, es) /\ TrivialEncSound(ty, rs, es) /\ EncImplCanonical(ty, rs, es)
+             /\ TrivialDecSound(ty, rs, es) /\ DecImpliesEnc(ty)
+          THEN TRUE ELSE Print(<<"FAILED-FACTS", FailedFacts(ty) \cap FactsC10, ToJson(ty)>>, FALSE)
 
 \* anti-vacuity: how many trees of the universe make each antecedent true (printed once)
 Stats(z) == LET UU == U(z) IN
